@@ -109,6 +109,7 @@ void a_rbt_insert_adjust(a_rbt *root, a_rbt_node *node)
     a_rbt_node *parent, *gparent, *tmp;
     for (parent = A_RBT_PARENT(node);;)
     {
+        A_VERIF_HOOK(rbt_insert_adjust_head)
         /* Loop invariant: node is red. */
         if (A_UNLIKELY(!parent))
         {
@@ -226,6 +227,7 @@ static A_INLINE void a_rbt_remove_adjust(a_rbt *root, a_rbt_node *parent)
     a_rbt_node *node, *sibling, *tmp1, *tmp2;
     for (node = A_NULL;;)
     {
+        A_VERIF_HOOK(rbt_remove_adjust_head)
         /*
         Loop invariants:
          - node is black (or null on first iteration)
